@@ -63,6 +63,13 @@ func judge(r *mon.Rec, src string, b []byte) {
 		r.Violate("C04:value-mismatch", "library reads different values than the RFC: want "+trunc(e.Canon())+" got "+trunc(g.Canon()), rp)
 		return
 	}
+	// the result is the caller's: write all over it.  Nothing a later decode returns may depend on that (if it does,
+	// the later case's own comparison with the reference reports it), and no process-wide value may change.
+	mon.Scribble(q)
+	if ch := mon.CanariesChanged(); len(ch) > 0 {
+		r.Violate("C04:result-aliases-global", fmt.Sprintf("writing into the decoded packet changed process-wide values %v: the decoder handed out shared storage", ch), rp)
+		return
+	}
 	nt := len(e.Instances)+min(e.Pads, 1)+b2i(e.Trailing > 0) >= 2
 	r.Shape("acc:"+e.Shape(), nt)
 	if nt && r.NSamples() < 4 && len(b) < 330 {
@@ -189,6 +196,30 @@ func TestCheck(t *testing.T) {
 			m[2] = byte(v)
 			judge(r, "hlen", m)
 		}
+	}
+	// (3a) what is left when the options area is empty or blank: every opcode class x cookie variants x tails (nothing,
+	//      pad bytes only, End, End and padding, junk) x lengths, over an all-zero and over a filled header
+	if r.Shard == 0 {
+		cookies := [][]byte{{99, 130, 83, 99}, {0, 0, 0, 0}, {255, 255, 255, 255}, {99, 83, 130, 99}, {99, 130, 83, 0}, {0, 130, 83, 99}, {99, 130, 83, 100}}
+		tails := [][]byte{nil, {0}, make([]byte, 4), make([]byte, 60), make([]byte, 336), {255}, append([]byte{255}, make([]byte, 59)...), append(make([]byte, 59), 255), {255, 255}, {1}, {53}, {53, 1}, {53, 0}}
+		nh := 0
+		for _, filled := range []bool{false, true} {
+			for _, op := range []byte{0, 1, 2, 3, 255} {
+				for _, ck := range cookies {
+					for _, tl := range tails {
+						m := make([]byte, 240, 240+len(tl))
+						if filled {
+							copy(m, header)
+						}
+						m[0] = op
+						copy(m[236:], ck)
+						judge(r, "blank-area", append(m, tl...))
+						nh++
+					}
+				}
+			}
+		}
+		r.Set("blank_area_family", nh)
 	}
 	// (3b) committed corpus: replay + mutants
 	corp := mon.Corpus("v4")
